@@ -60,6 +60,11 @@ DICT_CELLS = {
     S1 + 'B1': '=A1+A3', S1 + 'B2': '=A2&"é"', S1 + 'B3': '=A1/0',
     # (an overflowing product: infinity in most states, finite in some)
     S1 + 'B4': '=SUM(A1:A3)*1E+308', S1 + 'B5': '=A1>A3',
+    # a cell whose value is an array
+    S1 + 'B6': '=A1:A3',
+    # a sheet whose name holds a dollar sign, with a range on it
+    'Cost$!A1': 3, 'Cost$!A2': 4, 'Cost$!B1': '=SUM(A1:A2)',
+    S1 + 'B7': "=SUM('Cost$'!A1:A2)+1",
 }
 VALUES = [
     ('int', 7), ('huge', 1.5e300), ('tiny', 2.5e-300), ('negzero', -0.0),
@@ -111,7 +116,7 @@ def tmpdir():
     return _TMP.name
 
 
-EVAL_CELLS = [S1 + 'B1', S1 + 'B2', S1 + 'B3', S1 + 'B4']
+EVAL_CELLS = [S1 + 'B1', S1 + 'B2', S1 + 'B3', S1 + 'B4', S1 + 'B6']
 INPUTS = [S1 + 'A1', S1 + 'A2']
 
 
